@@ -30,7 +30,7 @@ from ..cfg import explore
 from ..rules import node_calls, event_facts, settle_sites
 from ..mutate import mutate, remove_stmts, replace_expr, replace_stmt, parse_stmt, parse_expr
 from ..model import AnalysisError
-from ..x_guardflow import ClassEffects, guard_facts, has, expand_expr
+from ..x_guardflow import ClassEffects, guard_facts, has, expand_expr, missing_effect
 
 TECHNIQUE = "reachability/dominance on the CFG, paired-update lint, finite-domain folding of the overflow and resolve predicates, FIFO-operation table"
 EXPLANATION = (
@@ -182,7 +182,11 @@ def write(ck):
     for a in appends:
         c = [c for c in q.calls(a.ast) if q.is_call(c, "self._write_buffer.append")][0]
         ck.ob("C12.index-pair", fi, a.ast, len(c.args) == 1 and q.dotted(c.args[0]) == data, "the written data itself is appended to the write buffer")
-    ck.ob("C12.index-pair", fi, fi.node, len(idx) >= 1, "write advances _total_write_index", construct="_total_write_index update in write")
+    weff = ClassEffects(ck.repo, FAMILY)
+    if idx:
+        ck.ob("C12.index-pair", fi, fi.node, True, "write advances _total_write_index")
+    else:
+        missing_effect(ck, "C12.index-pair", fi, weff, {"self._total_write_index"}, "write advances _total_write_index", "_total_write_index update in write")
     for i in idx:
         v = expand_expr(ck.repo, fi, i.ast.value)
         ck.ob("C12.index-pair", fi, i.ast, q.is_call(v, "len") and q.dotted(v.args[0]) == data, "_total_write_index grows by len(data)")
@@ -235,8 +239,15 @@ def handle_write(ck):
         ck.ob("C12.send-pair", fi, s.ast, q.is_call(a, "self._write_buffer.peek"), "the transport is given the head of the write buffer (peek)")
     adv = cfg.stmt_nodes(lambda n: n.kind == "stmt" and any(q.is_call(c, "self._write_buffer.advance") for c in q.calls(n.ast)))
     done = cfg.stmt_nodes(lambda n: _is_aug(n, "self._total_write_done_index"))
-    ck.ob("C12.send-pair", fi, fi.node, len(adv) >= 1, "sent bytes are removed from the write buffer (advance)", construct="advance in _handle_write")
-    ck.ob("C12.send-pair", fi, fi.node, len(done) >= 1, "_total_write_done_index is advanced", construct="done-index update in _handle_write")
+    heff = ClassEffects(ck.repo, FAMILY)
+    if adv:
+        ck.ob("C12.send-pair", fi, fi.node, True, "sent bytes are removed from the write buffer (advance)")
+    else:
+        missing_effect(ck, "C12.send-pair", fi, heff, {"self._write_buffer"}, "sent bytes are removed from the write buffer (advance)", "advance in _handle_write")
+    if done:
+        ck.ob("C12.send-pair", fi, fi.node, True, "_total_write_done_index is advanced")
+    else:
+        missing_effect(ck, "C12.send-pair", fi, heff, {"self._total_write_done_index"}, "_total_write_done_index is advanced", "done-index update in _handle_write")
     for a in adv:
         c = [c for c in q.calls(a.ast) if q.is_call(c, "self._write_buffer.advance")][0]
         ck.ob("C12.send-pair", fi, a.ast, len(c.args) == 1 and q.dotted(c.args[0]) == nvar, "the buffer advances by exactly the count write_to_fd returned (%s)" % nvar)
@@ -358,7 +369,11 @@ def stream_buffer(ck):
     ck.need(len(szs) <= 1, "append names len(data) more than once")
     sz = szs[0].targets[0].id if szs else "len(%s)" % data
     incs = app.cfg.stmt_nodes(lambda n: _is_aug(n, "self._size"))
-    ck.ob("C12.buffer-size", app, app.node, len(incs) >= 1, "append adds to _size", construct="_size update in append")
+    sbeff = ClassEffects(ck.repo, [(IO, SB)])
+    if incs:
+        ck.ob("C12.buffer-size", app, app.node, True, "append adds to _size")
+    else:
+        missing_effect(ck, "C12.buffer-size", app, sbeff, {"self._size"}, "append adds to _size", "_size update in append")
     for i in incs:
         ck.ob("C12.buffer-size", app, i.ast, q.dotted(i.ast.value) == sz or (q.is_call(i.ast.value, "len") and q.dotted(i.ast.value.args[0]) == data), "_size grows by len(data)")
     iid = {i.id for i in incs}
@@ -474,7 +489,10 @@ def stream_buffer(ck):
         ok = ok or good
     ck.ob("C12.buffer-size", adv, adv.node, ok, "advance asserts 0 < size <= _size (never advances past the buffered bytes)", construct="advance precondition")
     decs = adv.cfg.stmt_nodes(lambda n: _is_aug(n, "self._size", ast.Sub))
-    ck.ob("C12.buffer-size", adv, adv.node, len(decs) >= 1, "advance subtracts from _size", construct="_size update in advance")
+    if decs:
+        ck.ob("C12.buffer-size", adv, adv.node, True, "advance subtracts from _size")
+    else:
+        missing_effect(ck, "C12.buffer-size", adv, sbeff, {"self._size"}, "advance subtracts from _size", "_size update in advance")
     ef = event_facts(adv, {"touched": lambda n: n.kind == "stmt" and isinstance(n.ast, ast.stmt) and size in q.assigned_paths(n.ast), "checked": lambda n: n.kind == "stmt" and n.ast in asserts}, cond_facts=False)
     for d in decs:
         ck.ob("C12.buffer-size", adv, d.ast, q.dotted(d.ast.value) == size and not _touched_before(adv, d), "_size shrinks by the requested size (before the loop consumes the variable)")
